@@ -296,7 +296,33 @@ def t_strain_increment(sess):
     p = only_path(sess, paths)
     dt, L, out, apps = p.value
     sess.satisfiable("strain increment: reach", p.pc)
-    sess.prove("strain increment: exactly one eigenvalue computation", p.pc, z3.BoolVal(len(apps) == 1))
+    if len(apps) != 1:
+        # the tree does not ask LAPACK for the eigenvalues (a closed form, say): the statement itself is decided instead --
+        # with E = |dt| (L + L^T)/2 the result r is a root of det(E - x I) det(E + x I) and both r I - E and r I + E are
+        # positive semi-definite (all principal minors >= 0), i.e. r = |dt| x the largest absolute principal strain rate
+        from ..sarr import det3
+
+        a = abs(dt)
+        E = [[a * (L[i, j] + L[j, i]) / 2 for j in range(3)] for i in range(3)]
+        r = R(out)
+
+        def shifted(sign):
+            return np.array([[(r if i == j else R(0)) + sign * E[i][j] for j in range(3)] for i in range(3)], dtype=object)
+
+        lemmas = []
+        for args_, res, _ in p.uf_apps.get("sqrt", []):  # sqrt applications: r >= 0 and r^2 = argument
+            lemmas += [res >= 0, res * res == args_[0]]
+        sess.prove("strain increment (no eigenvalue routine): result is non-negative", list(p.pc) + lemmas, (r >= 0).z3())
+        sess.prove("strain increment (no eigenvalue routine): result is |dt| x a principal strain rate in absolute value (root of det(E - xI) det(E + xI))",
+                   list(p.pc) + lemmas, eq(det3(shifted(-1)) * det3(shifted(1)), 0))
+        minors = []
+        for sg in (-1, 1):
+            Mx = shifted(sg)
+            minors += [(Mx[i][i] >= 0).z3() for i in range(3)]
+            minors += [(Mx[i][i] * Mx[j][j] - Mx[i][j] * Mx[j][i] >= 0).z3() for i, j in ((0, 1), (0, 2), (1, 2))]
+            minors.append((det3(Mx) >= 0).z3())
+        sess.prove("strain increment (no eigenvalue routine): no principal strain rate exceeds the result in absolute value", list(p.pc) + lemmas, z3.And(*minors))
+        return
     args, rho = apps[0]
     D = (L + L.transpose()) / 2
     want = [D[i, j] for i in range(3) for j in range(i + 1)]
